@@ -465,7 +465,7 @@ async fn run_case(addr: SocketAddr, certs: &Certs, t: &[&str]) -> anyhow::Result
                 publ.send(Frame::Message(selium_protocol::MessagePayload { headers: None, message: bytes::Bytes::from_static(b"to-all") })).await?;
                 let mut missing = 0;
                 for s in streams.iter_mut() {
-                    match tokio::time::timeout(Duration::from_millis(2500), s.next()).await {
+                    match tokio::time::timeout(Duration::from_millis(6000), s.next()).await {
                         Ok(Some(Ok(Frame::Message(m)))) if &m.message[..] == b"to-all" => {}
                         _ => missing += 1,
                     }
